@@ -4,4 +4,5 @@ CONSTANT Fams = {4}
 CONSTANT NRand = 100
 CONSTANT RandKind = "scalar"
 CONSTANT NChunks = 12
+CONSTANT WsEach = 0
 CHECK_DEADLOCK FALSE
